@@ -10,7 +10,9 @@ package ipfslog
 //@ define validEntries(m iface.IPFSLogOrderedEntries) = isOM(m) && (forall k string :: has(om(m).values, k) ==> validEntry(om(m).values[k]) && ehash(om(m).values[k]) == k)
 //@ define validSlice(s []iface.IPFSLogEntry) = forall i int :: 0 <= i && i < len(s) ==> validEntry(s[i])
 //@ define inMap(m iface.IPFSLogOrderedEntries, e iface.IPFSLogEntry) = has(om(m).values, ehash(e)) && om(m).values[ehash(e)] == e
-//@ define logInv(l *IPFSLog) = l != nil && validEntries(l.Entries) && validEntries(l.heads) && isOM(l.Next) && validClock(l.Clock) && l.Identity != nil && l.SortFn != nil && l.AccessController != nil && validAnyIO(l.io) && l.Storage != nil
+// sepMaps: the three index maps of a log are distinct objects with distinct value maps (ownership)
+//@ define sepMaps(l *IPFSLog) = om(l.Entries) != om(l.heads) && om(l.Entries) != om(l.Next) && om(l.heads) != om(l.Next) && om(l.Entries).values != om(l.heads).values && om(l.Entries).values != om(l.Next).values && om(l.heads).values != om(l.Next).values
+//@ define logInv(l *IPFSLog) = l != nil && validEntries(l.Entries) && validEntries(l.heads) && isOM(l.Next) && sepMaps(l) && validClock(l.Clock) && l.Identity != nil && l.SortFn != nil && l.AccessController != nil && validAnyIO(l.io) && l.Storage != nil
 
 //@ guarded IPFSLog.Entries by IPFSLog.lock
 //@ guarded IPFSLog.heads by IPFSLog.lock
@@ -87,3 +89,46 @@ package ipfslog
 //@     invariant validSlice(entries)
 //@     invariant entries == nil || fresh(entries)
 //@     invariant forall j int :: 0 <= j && j < len(entries) ==> inMap(all, entries[j])
+
+// ---- Append (C04, C02, C05, C06-denial) ----
+//@ define headHashIn(l *IPFSLog, k string) = has(om(l.heads).values, k)
+//@ func (*IPFSLog).Append
+//@   requires logInv(l) && (l.Identity.Provider != nil && l.Identity.Signatures != nil) && len(l.Clock.(*entry.LamportClock).ID) > 0
+//@   requires l.Clock.(*entry.LamportClock).Time < 4611686018427387904 && (forall k string :: has(om(l.heads).values, k) ==> etime(om(l.heads).values[k]) < 4611686018427387904)
+//@   lockrequires held[l.lock] == 0 && held[om(l.Entries).lock] == 0 && held[om(l.heads).lock] == 0 && held[om(l.Next).lock] == 0
+//@   modifies l.Clock, l.heads, om(l.Entries).keys, mapof(om(l.Entries).values), om(l.Next).keys, mapof(om(l.Next).values)
+//@   ensures validEntries(l.Entries)
+//@   ensures validEntries(l.heads)
+//@   ensures isOM(l.Next)
+//@   ensures sepMaps(l)
+//@   ensures validClock(l.Clock)
+//@   ensures l.Identity != nil && l.SortFn != nil && l.AccessController != nil && validAnyIO(l.io) && l.Storage != nil
+//@   ensures err == nil ==> validEntry(result0) && fresh(result0)
+//@   ensures [appended-entry-names-exactly-the-heads] err == nil ==> (forall k string :: old(has(om(l.heads).values, k)) ==> exists i int :: 0 <= i && i < len(result0.Next) && str(result0.Next[i]) == k)
+//@   ensures [appended-entry-names-only-heads] err == nil ==> (forall i int, k string :: 0 <= i && i < len(result0.Next) && k == str(result0.Next[i]) ==> old(has(om(l.heads).values, k)))
+//@   ensures [appended-entry-clock-id-is-writer-key] err == nil ==> result0.Clock.ID == old(l.Clock.(*entry.LamportClock).ID)
+//@   ensures [appended-entry-time-dominates-clock] err == nil ==> etime(result0) > old(l.Clock.(*entry.LamportClock).Time)
+//@   ensures [appended-entry-time-dominates-heads] err == nil ==> forall k string :: old(has(om(l.heads).values, k)) ==> etime(result0) > etime(old(om(l.heads).values[k]))
+//@   ensures [appended-entry-is-the-single-head] err == nil ==> forall k string :: has(om(l.heads).values, k) <==> k == ehash(result0)
+//@   ensures [appended-entry-is-in-the-log] err == nil ==> inMap(l.Entries, result0) && inMap(l.heads, result0)
+//@   ensures [append-keeps-every-entry] forall k string :: old(has(om(l.Entries).values, k)) ==> has(om(l.Entries).values, k) && (k != ehash(result0) || err != nil ==> om(l.Entries).values[k] == old(om(l.Entries).values[k]))
+//@   ensures [append-adds-only-the-new-entry] forall k string :: has(om(l.Entries).values, k) ==> old(has(om(l.Entries).values, k)) || (err == nil && k == ehash(result0))
+//@   ensures [failed-append-changes-nothing] err != nil ==> l.heads == old(l.heads) && om(l.Entries).keys == old(om(l.Entries).keys) && om(l.Next).keys == old(om(l.Next).keys) && (forall k string :: has(om(l.Next).values, k) == old(has(om(l.Next).values, k)))
+//@   loop 0
+//@     invariant fresh(next) && off(next) == 0 && len(next) == $k
+//@     invariant forall i int :: 0 <= i && i < $k ==> next[i] == $r[$k - 1 - i].Hash
+//@     invariant forall j int :: 0 <= j && j < $k ==> next[$k - 1 - j] == $r[j].Hash
+//@     invariant ref(next) != ref(refs)
+//@     invariant [sorted-heads-have-distinct-hashes] forall j1 int, j2 int :: 0 <= j1 && j1 < j2 && j2 < len($r) ==> $r[j1].Hash != $r[j2].Hash
+//@     invariant [sorted-heads-are-heads] forall j int, k string :: 0 <= j && j < len($r) && k == ehash($r[j]) ==> old(has(om(l.heads).values, k))
+//@     invariant distinctCids(next)
+//@     invariant [every-head-is-a-sorted-head] forall k string :: old(has(om(l.heads).values, k)) ==> exists j int :: 0 <= j && j < len($r) && ehash($r[j]) == k
+//@   loop 1
+//@     invariant fresh(refs) && off(refs) == 0 && validSlice(references) && ref(refs) != ref(next)
+//@     loopkeeps elems(next)
+//@   loop 2
+//@     invariant true
+//@   loop 3
+//@     invariant isOM(l.Next) && omInv(om(l.Entries)) && sepMaps(l)
+//@     invariant forall k string :: has(om(l.Entries).values, k) == has(old(om(l.Entries).values), k) || k == ehash(e)
+//@     loopmodifies om(l.Next).keys, mapof(om(l.Next).values)
